@@ -29,22 +29,27 @@ impl DistributedWriteRouter {
     /// If the write is for a shard owned by this node, returns None (handle locally).
     /// If the write is for a shard owned by another node, returns the target node info.
     pub async fn route_write(&self, shard_id: &str) -> Result<Option<NodeInfo>> {
-        // Get assigned node for this shard
-        let node_id = self.assignments.assign_shard(shard_id).await?;
+        // A node can stop being eligible between assignment and lookup; retry a
+        // bounded number of times, then report that no node is available.
+        const MAX_ROUTE_ATTEMPTS: usize = 3;
 
-        // Get node info
-        if let Some(node) = self.nodes.get_node(&node_id).await {
-            if node.can_accept_writes() {
-                debug!("Routing write for shard {} to node {}", shard_id, node_id);
-                return Ok(Some(node));
-            } else {
-                warn!(
-                    "Assigned node {} cannot accept writes, reassigning",
-                    node_id
-                );
-                self.assignments.unassign_shard(shard_id).await;
-                // Retry assignment (boxed to avoid infinite recursion)
-                return Box::pin(self.route_write(shard_id)).await;
+        for _attempt in 0..MAX_ROUTE_ATTEMPTS {
+            // Get assigned node for this shard
+            let node_id = self.assignments.assign_shard(shard_id).await?;
+
+            // Get node info
+            match self.nodes.get_node(&node_id).await {
+                Some(node) if node.can_accept_writes() => {
+                    debug!("Routing write for shard {} to node {}", shard_id, node_id);
+                    return Ok(Some(node));
+                }
+                _ => {
+                    warn!(
+                        "Assigned node {} cannot accept writes, reassigning",
+                        node_id
+                    );
+                    self.assignments.unassign_shard(shard_id).await;
+                }
             }
         }
 
